@@ -91,7 +91,7 @@ impl DeltaEncoding {
         // Compute signed deltas, then zig-zag encode them
         let deltas: Vec<u64> = values
             .windows(2)
-            .map(|w| zigzag_encode(w[1] - w[0]))
+            .map(|w| zigzag_encode(w[1].wrapping_sub(w[0])))
             .collect();
 
         Self {
@@ -134,7 +134,7 @@ impl DeltaEncoding {
         result.push(current);
 
         for &delta in &self.deltas {
-            current += zigzag_decode(delta);
+            current = current.wrapping_add(zigzag_decode(delta));
             result.push(current);
         }
 
